@@ -46,11 +46,19 @@ def faultO (j : Json) (k : String) : Except String (Option Err) :=
   | none => pure none
   | some v => do pure (some (← parseErr (← asStr v)))
 
-def parseFaults (j : Option Json) : Except String Faults :=
+/-- the NodePool read: not made for a NodeClaim that names no NodePool; an injected error class; else what the API
+    server says — the NodePool is there, or it is not (`pool`, a function of the input alone) -/
+def poolGetOf (labelled pool : Bool) (inj : Option Err) : PoolGet :=
+  if !labelled then .unlabelled
+  else match inj with
+    | some e => .err e
+    | none => if pool then .ok else .err .notFound
+
+def parseFaults (j : Option Json) (labelled pool : Bool) : Except String Faults :=
   match j with
-  | none => pure {}
+  | none => pure { poolGet := poolGetOf labelled pool none }
   | some f => do
-    pure { finPatch := ← faultO f "nc.patch.lock", claimDelete := ← faultO f "nc.delete",
+    pure { poolGet := poolGetOf labelled pool (← faultO f "np.get"), finPatch := ← faultO f "nc.patch.lock", claimDelete := ← faultO f "nc.delete",
            nodeList := (fldOpt f "node.list").isSome, nodePatchLock := ← faultO f "node.patch.lock",
            nodePatch := ← faultO f "node.patch", metaPatch := ← faultO f "nc.patch", statusPatch := ← faultO f "nc.status" }
 
@@ -66,6 +74,15 @@ def parseCreate (s : String) : Except String CreateOutcome :=
 def parseSpec (j : Json) : Except String (Spec × Bool) := do
   let res ← natF j "res"
   pure ({ startup := ← taintsF j "startup", taints := ← taintsF j "taints", wantsRes := res == 1 }, ← boolF j "fin")
+
+/-- (the NodeClaim names a NodePool, that NodePool exists when the history starts) -/
+def parsePool (j : Json) : Except String (Bool × Bool) := do
+  let pool ← boolD j "pool" false
+  match (← strO j "ps").getD "" with
+  | "" => pure (pool, pool)
+  | "gone" => pure (true, false)
+  | "other" => pure (true, true)
+  | s => throw s!"bad NodePool state {s}"
 
 def parseTri (s : String) : Except String Tri :=
   match s with
@@ -123,6 +140,7 @@ def parseCall (s : String) : Except String Call := do
       | "node.patch" => pure Site.nodePatch
       | "nc.patch" => pure Site.metaPatch
       | "nc.status" => pure Site.statusPatch
+      | "np.get" => pure Site.poolGet
       | _ => throw s!"unknown call site {site}"
     let o ← match out with
       | "ok" => pure Outcome.ok
@@ -174,16 +192,16 @@ def parseImplStep (j : Json) : Except String ImplStep := do
   let creates ← (← arrD j "creates").mapM (fun c => do
     pure ({ ok := ← boolD c "ok" false, fin := ← boolD c "fin" false, present := ← boolD c "exists" false } : CreateObs))
   pure { obs := { isRec := isRec, fresh := false, view := view, calls := calls, result := ← parseResult ((← strO j "result").getD ""),
-                  claim := claim, nodes := nodes, creates := creates },
+                  claim := claim, nodes := nodes, creates := creates, now := (← natO j "now").getD 0 },
          strays := strays, finalizePath := finPath, instances := (← natO j "instances").getD 0, now := (← natO j "now").getD 0, rawCalls := rawCalls }
 
 /-- input step -> model step; `impl` resolves what the (unmodelled) deletion path did -/
-def parseStep (j : Json) (impl : ImplStep) (w : World) : Except String Step := do
+def parseStep (j : Json) (impl : ImplStep) (w : World) (labelled pool : Bool) : Except String Step := do
   match ← strF j "k" with
   | "rec" =>
     let lag := (← natO j "lag").getD 0
     let co ← parseCreate ((← strO j "create").getD "")
-    let f ← parseFaults (fldOpt j "f")
+    let f ← parseFaults (fldOpt j "f") labelled pool
     let view := pickView w lag
     let fin : FinalizeOut :=
       if view.present && view.deleting then
@@ -195,10 +213,16 @@ def parseStep (j : Json) (impl : ImplStep) (w : World) : Except String Step := d
     let rc ← match ← strO j "rs" with
       | some r => parseReady r
       | none => pure (if ← boolD j "ready" false then NodeReady.true_ else NodeReady.false_)
+    -- `dl`: the do-not-sync-taints label with an explicit value; only the exact value "true" opts out
+    let dns ← match ← strO j "dl" with
+      | some v => pure (v == "true")
+      | none => boolD j "dns" false
     pure (.env (.nodeAppear { taints := ← taintsF j "taints", readyCond := rc, resOK := ← boolD j "res" false,
-                              doNotSync := ← boolD j "dns" false, regLabel := ← boolD j "reg" false }))
+                              doNotSync := dns, regLabel := ← boolD j "reg" false }))
   -- a Node that is not this NodeClaim's: nothing the model looks at changes (the step still ages the cached copies)
   | "stray" => pure (.env (.advance 0))
+  -- the NodePool is deleted: not part of the modelled world (it decides what later NodePool reads answer)
+  | "pooldel" => pure (.env (.advance 0))
   | "gone" => pure (.env .nodesGone)
   | "ready" => pure (.env (.setReady .true_))
   | "unready" => pure (.env (.setReady .false_))
@@ -255,12 +279,13 @@ def parseStray (j : Json) : Except String (Option Node) := do
     (with `fresh` filled in from the model's view bookkeeping, which only depends on the input).
     `strays`: the Nodes of the cluster that are not this NodeClaim's, as the input created them — the lifecycle
     controller must leave them exactly so. -/
-def replay (sp : Spec) : World → Claim → List Node → List Json → List ImplStep → Nat → Option String → List StepObs →
+def replay (sp : Spec) (labelled : Bool) : Bool → World → Claim → List Node → List Json → List ImplStep → Nat → Option String → List StepObs →
     Except String (Option String × List StepObs)
-  | _, _, _, [], _, _, d, acc => pure (d, acc.reverse)
-  | _, _, _, _ :: _, [], _, _, _ => throw "implementation recorded fewer steps than the input has"
-  | w, prev, strays, j :: js, impl :: impls, idx, d, acc => do
-    let s ← parseStep j impl w
+  | _, _, _, _, [], _, _, d, acc => pure (d, acc.reverse)
+  | _, _, _, _, _ :: _, [], _, _, _ => throw "implementation recorded fewer steps than the input has"
+  | pool, w, prev, strays, j :: js, impl :: impls, idx, d, acc => do
+    let s ← parseStep j impl w labelled pool
+    let pool' := pool && (← strF j "k") != "pooldel"
     let (w', o) := step sp w s
     let strays' := match ← parseStray j with
       | some n => strays ++ [n]
@@ -275,7 +300,7 @@ def replay (sp : Spec) : World → Claim → List Node → List Json → List Im
           if impl.strays != strays' then
             some s!"step {idx}: a Node that does not carry the instance's provider id was touched: expected={repr strays'} impl={repr impl.strays}"
           else none
-    replay sp w' impl.obs.claim strays' js impls (idx + 1) d' (so :: acc)
+    replay sp labelled pool' w' impl.obs.claim strays' js impls (idx + 1) d' (so :: acc)
 
 def lifecycle (inp impl : Json) : Except String Resp := do
   let (sp, fin) ← parseSpec (← fld inp "claim")
@@ -288,9 +313,12 @@ def lifecycle (inp impl : Json) : Except String Resp := do
     | .error e => pure { allowed := some false, why := s!"implementation output outside the model's vocabulary: {e}" }
     | .ok impls =>
     let w0 := World.init fin
-    let (d, obs) ← replay sp w0 w0.claim [] steps impls 0 none []
+    let (labelled, pool) ← parsePool (← fld inp "claim")
+    let (d, obs) ← replay sp labelled pool w0 w0.claim [] steps impls 0 none []
     let acc0 : Acc := { prev := w0.claim, finEver := fin }
-    let viol := Karp.Spec.LifecycleOrder.firstViolation sp acc0 obs 0
+    let viol := match Karp.Spec.LifecycleOrder.firstViolation sp acc0 obs 0 with
+      | some v => some v
+      | none => Karp.Spec.LifecycleOrder.firstTimeoutViolation 0 0 obs 0
     let why := match viol, d with
       | some v, _ => v
       | none, some x => x
@@ -335,6 +363,7 @@ def handle : Handler := fun op inp impl =>
   | "c14.lifecycle" => lifecycle inp impl
   | "c14.faults" => lifecycle inp impl
   | "c14.gates" => lifecycle inp impl
+  | "c14.timeouts" => lifecycle inp impl
   | "c14.init" => initChecks inp impl
   | _ => .error s!"unknown op {op}"
 
